@@ -210,7 +210,7 @@ func main() {
 				// armor failures carry the armor error type
 				if v.armored {
 					rr := refage.Dearmor(string(data))
-					if !rr.Accepted {
+					if !rr.Accepted && !rr.LimitDependent {
 						e := res.DecryptErr
 						if e == nil {
 							e = res.ReadErr
